@@ -318,7 +318,8 @@ class Run:
         if new:
             rdir = os.path.join(VERIF, "replays")
             os.makedirs(rdir, exist_ok=True)
-            key, what, replay, found = new[0]
+            # the replay is a violation with a concrete failing input when there is one
+            key, what, replay, found = ([v for v in new if v[3]] or new)[0]
             path = os.path.join(rdir, f"{self.prop}_{self.tier}_{self.seed}.json")
             with open(path, "w") as f:
                 json.dump({"property": self.prop, "key": key, "what": what, "replay": replay,
